@@ -101,6 +101,19 @@ def catalogue(G, rng, extra):
         qs.append(('gfa.segment_connected_component(%r)' % n, lambda n=n: G.segment_connected_component(n)))
         qs.append(('gfa.is_cut_segment(%r)' % n, lambda n=n: G.is_cut_segment(n)))
         qs.append(('gfa.linear_path(%r)' % n, lambda n=n: G.linear_path(n)))
+    # searches: by a dictionary of field values, by a line of the Gfa and by a free-standing line used as a template
+    for l in rng.sample(lines, min(4, len(lines))) + extra[:2]:
+        if l.record_type in ('H', '#'):
+            continue
+        t = str(l)[:30]
+        nf = [fn for fn in l.positional_fieldnames][:1]
+        if nf:
+            key = impl.value_or(lambda: str(l.field_to_s(nf[0])), None)
+            if key is not None:
+                qs.append(('gfa.select({record_type,%s}) %s' % (nf[0], t),
+                           lambda l=l, nf=nf, key=key: G.select({'record_type': l.record_type, nf[0]: key})))
+        qs.append(('gfa.select(line) %s' % t, lambda l=l: G.select(l)))
+        qs.append(('gfa.select({record_type}) %s' % t, lambda l=l: G.select({'record_type': l.record_type})))
     groups = [l for l in lines if l.record_type in ('O', 'U', 'P')]
     others = [l for l in lines if l.record_type not in ('O', 'U', 'P')]
     for l in groups[:6] + rng.sample(others, min(8, len(others))):
@@ -233,6 +246,7 @@ def run_case(case):
             extra.append(r[1])
     qs = catalogue(G, rng, extra)
     must = [q for q in qs if any(k in q[0] for k in ('.captured_', '.induced_', '.links', '.items'))]
+    searches = [q for q in qs if q[0].startswith('gfa.select(')]
     if case['version'] == 'gfa1':
         # F57: converting a connected L/C line without ID tag to GFA2 stores a generated ID tag on it
         bare = any(l.record_type in 'LC' and l.get('ID') is None for l in G.lines)
@@ -243,13 +257,15 @@ def run_case(case):
                 (label.endswith('.to_gfa2') or label.endswith('.to_gfa2_s') or label.endswith('(gfa2)'))
         qs = [q for q in qs if not f57(q[0])]
     rng.shuffle(qs)
-    qs = must[:30] + qs[:case['nq']]
+    qs = must[:30] + searches[:12] + qs[:case['nq']]
     s0 = snapshot(G, extra)
     out = []
     returned = 0
+    first = []
     for label, thunk in qs:
         r1 = impl.outcome(thunk)
         a1 = show(r1[1]) if r1[0] == 'ok' else r1[1]
+        first.append(a1)
         s1 = snapshot(G, extra)
         if s1 != s0:
             k = [i for i in range(len(s0)) if s0[i] != s1[i]][0]
@@ -268,6 +284,34 @@ def run_case(case):
             break
         if r1[0] == 'ok':
             returned += 1
+    if not out:
+        # no later answer changes: every query is asked once more after all the others
+        for (label, thunk), a1 in zip(qs, first):
+            r3 = impl.outcome(thunk)
+            a3 = show(r3[1]) if r3[0] == 'ok' else r3[1]
+            if a3 != a1:
+                out.append(('the query %s answers differently after the other queries were asked' % label, a1, a3))
+                break
+    if not out:
+        # a search by field value returns the lines that carry that value, whatever was searched before (state kept
+        # between calls may have been set by an earlier Gfa of this process)
+        for l in [x for x in G.lines if x.record_type in ('S', 'P', 'E', 'G', 'O', 'U', 'F') and not x.virtual][:12]:
+            fns = list(l.positional_fieldnames)[:1]
+            if not fns:
+                continue
+            key = impl.value_or(lambda: str(l.field_to_s(fns[0])), None)
+            if key is None:
+                continue
+            got = impl.outcome(lambda: sorted(str(x) for x in G.select({'record_type': l.record_type, fns[0]: key})))
+            if key == '*':
+                continue
+            # a placeholder in the searched field stands for any value
+            want = sorted(str(x) for x in G.lines if x.record_type == l.record_type and
+                          impl.value_or(lambda: str(x.field_to_s(fns[0])), None) in (key, '*'))
+            if got[0] == 'ok' and got[1] != want:
+                out.append(('gfa.select({record_type: %r, %s: %r}) does not return the lines with that value'
+                            % (l.record_type, fns[0], key), want, got[1]))
+                break
     return out, {'queries': len(qs), 'returned': returned, 'labels': [q[0].split(' .')[-1].split('(')[0] for q in qs]}
 
 
